@@ -328,8 +328,9 @@ structure NSt where
   fwd : Option Err               -- `Driver.read` is blocked in `d.errs <- err`
   store : List (Nat × Bytes)     -- `d.messages` (newest first)
 
-/-- one iteration of `Driver.read` -/
-def nstep (msgP : Bytes → Bool) (idOf : Bytes → Nat) (n : NSt) : NSt :=
+/-- one iteration of `Driver.read`; `echoRest b = some rest` when `b` contains `</rpc>` (the transport
+    echoed the request): `rest` is what follows the first delimiter -/
+def nstep (msgP : Bytes → Bool) (idOf : Bytes → Nat) (echoRest : Bytes → Option Bytes) (n : NSt) : NSt :=
   match n.fwd with
   | some _ => n
   | none =>
@@ -338,9 +339,33 @@ def nstep (msgP : Bytes → Bool) (idOf : Bytes → Nat) (n : NSt) : NSt :=
     | (.nil, s') => { n with ch := s' }
     | (.data c, s') =>
       if msgP (n.nb ++ c) then
-        { n with ch := s', nb := [],
-                 store := if idOf (n.nb ++ c) = 0 then n.store else (idOf (n.nb ++ c), n.nb ++ c) :: n.store }
+        match echoRest (n.nb ++ c) with
+        | some rest => { n with ch := s', nb := rest }   -- the request echoed back: keep what follows it
+        | none =>
+          { n with ch := s', nb := [],
+                   store := if idOf (n.nb ++ c) = 0 then n.store else (idOf (n.nb ++ c), n.nb ++ c) :: n.store }
       else { n with ch := s', nb := n.nb ++ c }
+
+/-- feed chunks to `Driver.read`'s accumulate-and-test: `true` iff no message is ever stored (every
+    buffer on which the delimiter matcher fires is an echoed request, after which reading goes on
+    with what follows it) -/
+def feedSafe (msgP : Bytes → Bool) (echoRest : Bytes → Option Bytes) : Bytes → List Bytes → Bool
+  | _, [] => true
+  | nb, c :: cs =>
+    if msgP (nb ++ c) then
+      match echoRest (nb ++ c) with
+      | some rest => feedSafe msgP echoRest rest cs
+      | none => false
+    else feedSafe msgP echoRest (nb ++ c) cs
+
+/-- the chunks a transport with `left` bytes to go still delivers of the chunk list `cs` (the last one
+    cut short by the loss) -/
+def cutTo : Nat → List Bytes → List Bytes
+  | _, [] => []
+  | left, c :: cs =>
+    if left = 0 then []
+    else if c.length ≤ left then c :: cutTo (left - c.length) cs
+    else [c.take left]
 
 /-- `sendRPC`: the remaining transport writes (with the server's reaction), then the `select` -/
 structure Rpc where
@@ -366,13 +391,13 @@ def rpcStep (preferData : Bool) (n : NSt) (r : Rpc) : NSt × (Rpc ⊕ Res) :=
 inductive NActor | rdr | fwd | rpc (preferData : Bool)
   deriving DecidableEq, Repr
 
-def nrun (msgP : Bytes → Bool) (idOf : Bytes → Nat) : List NActor → NSt → Rpc → NSt × (Rpc ⊕ Res)
+def nrun (msgP : Bytes → Bool) (idOf : Bytes → Nat) (echoRest : Bytes → Option Bytes) : List NActor → NSt → Rpc → NSt × (Rpc ⊕ Res)
   | [], n, r => (n, .inl r)
-  | .rdr :: t, n, r => nrun msgP idOf t { n with ch := rstep n.ch } r
-  | .fwd :: t, n, r => nrun msgP idOf t (nstep msgP idOf n) r
+  | .rdr :: t, n, r => nrun msgP idOf echoRest t { n with ch := rstep n.ch } r
+  | .fwd :: t, n, r => nrun msgP idOf echoRest t (nstep msgP idOf echoRest n) r
   | .rpc p :: t, n, r =>
     match rpcStep p n r with
-    | (n', .inl r') => nrun msgP idOf t n' r'
+    | (n', .inl r') => nrun msgP idOf echoRest t n' r'
     | (n', .inr res) => (n', .inr res)
 
 /-- a NETCONF tick: each of the three goroutines takes one step, in one of the six orders
@@ -393,6 +418,11 @@ def nticks (ords : List Nat) : List NActor := ords.flatMap ntick
     turned into a message -/
 def nunread (n : NSt) (r : Rpc) : Bytes :=
   n.nb ++ n.ch.q.flatten ++ n.ch.pending.flatten ++ (r.writes.map (·.2.flatten)).flatten
+
+/-- the chunks `Driver.read` can still be handed: queued, pending or still to be emitted in reaction
+    to the RPC's remaining writes — as far as the transport delivers them -/
+def deliverable (n : NSt) (r : Rpc) : List Bytes :=
+  n.ch.q ++ cutTo n.ch.left (n.ch.pending ++ (r.writes.map (·.2)).flatten)
 
 /-- bytes `Driver.read` holds or can still be given -/
 def nbudget (n : NSt) : Nat := n.ch.left + n.nb.length + n.ch.q.flatten.length
